@@ -70,6 +70,8 @@ func fail(f string, a ...interface{}) { panic(failure{fmt.Sprintf(f, a...)}) }
 
 func coqType(t string) string {
 	switch t {
+	case "names":
+		return "list string"
 	case "bool":
 		return "bool"
 	case "string":
@@ -942,6 +944,46 @@ func (c *tctx) fragment(body *ast.BlockStmt) (string, string, string) {
 			p = por(p, "("+prefix+pe+")")
 		}
 		return "(" + prefix + v + ")", ty, p
+	case "names":
+		// the arguments of the first call of t.Pick, as a list of names (decorator chains, message-type lists)
+		var names []string
+		foundCall := false
+		ast.Inspect(body, func(nd ast.Node) bool {
+			if foundCall {
+				return false
+			}
+			call, ok := nd.(*ast.CallExpr)
+			if !ok || norm(c.fset, call.Fun) != t.Pick {
+				return true
+			}
+			foundCall = true
+			for _, a := range call.Args {
+				switch y := a.(type) {
+				case *ast.CallExpr:
+					fn := norm(c.fset, y.Fun)
+					if fn == "sdk.MsgTypeURL" && len(y.Args) == 1 {
+						txt := norm(c.fset, y.Args[0])
+						txt = strings.TrimSuffix(strings.TrimPrefix(txt, "&"), "{}")
+						names = append(names, txt)
+					} else {
+						names = append(names, fn)
+					}
+				case *ast.CompositeLit:
+					names = append(names, norm(c.fset, y.Type)+"{}")
+				default:
+					names = append(names, norm(c.fset, a))
+				}
+			}
+			return false
+		})
+		if !foundCall {
+			fail("no call of %s in %s", t.Pick, t.Func)
+		}
+		var q []string
+		for _, n := range names {
+			q = append(q, "\""+strings.ReplaceAll(n, "\"", "'")+"\"%string")
+		}
+		return "[" + strings.Join(q, "; ") + "]", "names", "false"
 	case "guards":
 		// accepted := none of the early-return guards (top-level ifs that return a non-nil last result) fires.
 		// `err != nil` after `..., err := CALL` is the atom "fails:CALL" (matched by prefix of the call text).
@@ -1114,7 +1156,7 @@ func main() {
 	ftypes := map[string][]string{}
 	var sb strings.Builder
 	sb.WriteString("(* GENERATED by /verif/translator (go2coq) from the current source of settlus/chain. Do not edit. *)\n")
-	sb.WriteString("From Settlus Require Import Base.Prelude Base.Dec.\nFrom Settlus Require Import Base.GoSem.\nOpen Scope Z_scope.\nOpen Scope bool_scope.\n\n")
+	sb.WriteString("From Coq Require Import String.\nFrom Settlus Require Import Base.Prelude Base.Dec.\nFrom Settlus Require Import Base.GoSem.\nOpen Scope Z_scope.\nOpen Scope bool_scope.\n\n")
 	okN, failN := 0, 0
 	var names []string
 	for i := range targets {
